@@ -18,9 +18,11 @@ class FakeVCS:
         with open(os.path.join(self.dir, name), "w", encoding="utf-8", newline="") as f:
             f.write(text)
 
-    def set(self, tags=None, tags_branch=None, status=None, remote=None, branches=None, fail=None, tags_remote=None):
+    def set(self, tags=None, tags_branch=None, status=None, remote=None, branches=None, fail=None, tags_remote=None, tags_branch_remote=None):
         if tags_remote is not None:
             self.put("tags_remote", "".join(t + "\n" for t in tags_remote))      # appended to the tag list by the first fetch
+        if tags_branch_remote is not None:
+            self.put("tags_branch_remote", "".join(t + "\n" for t in tags_branch_remote))      # ... and to the --merged listing
         if tags is not None:
             self.put("tags", "".join(t + "\n" for t in tags))
         if tags_branch is not None:
@@ -67,10 +69,12 @@ class FakeVCS:
         return None
 
 
-def write_hook(path, which, fakedir, succeed=True, unstartable=None):
+def write_hook(path, which, fakedir, succeed=True, unstartable=None, how=0):
     """a hook script that appends an order marker and its BUMPVER_* environment to the fake VCS log;
-    unstartable: "noexec" (no executable bit) or "badinterp" (its #! interpreter does not exist) - the file exists but cannot be run"""
+    unstartable: "noexec" (no executable bit) or "badinterp" (its #! interpreter does not exist) - the file exists but cannot be run;
+    how: the way a failing hook ends - 0: exit 1, 1: exit 3, 2: killed by a signal (the process does not exit at all: its status is negative)"""
+    end = "exit 0" if succeed else ["exit 1", "exit 3", "kill -KILL $$"][how % 3]
     with open(path, "w") as f:
-        f.write("#!%s\nprintf '%%s\\0' 4 HOOK %s \"$BUMPVER_OLD_VERSION\" \"$BUMPVER_NEW_VERSION\" >> '%s/log'\nexit %d\n"
-                % ("/nonexistent/interpreter" if unstartable == "badinterp" else "/bin/sh", which, fakedir, 0 if succeed else 1))
+        f.write("#!%s\nprintf '%%s\\0' 4 HOOK %s \"$BUMPVER_OLD_VERSION\" \"$BUMPVER_NEW_VERSION\" >> '%s/log'\n%s\n"
+                % ("/nonexistent/interpreter" if unstartable == "badinterp" else "/bin/sh", which, fakedir, end))
     os.chmod(path, 0o644 if unstartable == "noexec" else 0o755)
